@@ -232,6 +232,9 @@ class Tap:
     def install(self):
         from zepid.causal.gformula import MonteCarloGFormula
         self.cls = MonteCarloGFormula
+        self.installed = '_predict' in MonteCarloGFormula.__dict__
+        if not self.installed:          # the hook point was refactored away: K reports it, hook-free D still runs
+            return
         self.orig_attr = MonteCarloGFormula.__dict__['_predict']
         orig = MonteCarloGFormula._predict
         tap = self
@@ -242,7 +245,8 @@ class Tap:
         MonteCarloGFormula._predict = staticmethod(wrapped)
 
     def remove(self):
-        self.cls._predict = self.orig_attr
+        if self.installed:
+            self.cls._predict = self.orig_attr
 
     def kind_of(self, model):
         gf = self.gf
@@ -399,7 +403,14 @@ def run_case(spec, drv):
     res = []
     info = {}
 
-    def D(ok, what, sig=None):
+    wit = {}
+
+    def note(key, msg):
+        wit.setdefault(key, msg)
+
+    def D(ok, what, sig=None, key=None):
+        if not ok and key in wit:
+            what = '%s [first witness: %s]' % (what, wit[key])
         res.append(('D', bool(ok), what, sig))
 
     def K(ok, what):
@@ -436,8 +447,11 @@ def run_case(spec, drv):
                     info=info)
     per, kinds, problems = transpose(tap, spec, tmax)
     per2, _, problems2 = transpose(tap2, spec, tmax)
-    K(not problems, 'call sequence of _predict (full): ' + '; '.join(problems[:3]))
-    K(not problems2, 'call sequence of _predict (low_memory): ' + '; '.join(problems2[:3]))
+    hooked = tap.installed and tap2.installed
+    K(hooked, 'hook point MonteCarloGFormula._predict exists')
+    if hooked:
+        K(not problems, 'call sequence of _predict (full): ' + '; '.join(problems[:3]))
+        K(not problems2, 'call sequence of _predict (low_memory): ' + '; '.join(problems2[:3]))
     pos = {k: i for i, k in enumerate(kinds)}
 
     # ============================== D: the property, directly on predicted_outcomes ==============================
@@ -461,6 +475,10 @@ def run_case(spec, drv):
         ok_tin &= ti.tolist() == list(range(m))
         ok_tout &= bool((to == ti + 1).all())
         ok_tmax &= bool((to <= tmax).all()) and m <= tmax
+        if int((y != 0).sum()) > 1 or not (y[:-1] == 0).all():
+            note('event', 'uid %d outcomes %s' % (u, y.tolist()))
+        if ti.tolist() != list(range(m)) or not (to == ti + 1).all() or not (to <= tmax).all():
+            note('time', 'uid %d time_in %s time_out %s t_max %d' % (u, ti.tolist(), to.tolist(), tmax))
         ok_id &= gdf['id'].nunique() == 1 and gdf['id'].iloc[0] in ids
         if m < tmax:
             stops_early += 1
@@ -468,57 +486,75 @@ def run_case(spec, drv):
             reaches_end += 1
     ok_sorted = full[['uid_g_zepid', 't_in']].apply(tuple, axis=1).tolist() == \
         sorted(full[['uid_g_zepid', 't_in']].apply(tuple, axis=1).tolist())
-    D(ok_one, 'at most one event per history')
-    D(ok_last, 'no record after an event (an event is the last record)')
-    D(ok_tin, 'time_in = 0, 1, 2, ... consecutive within every history')
-    D(ok_tout, 'time_out = time_in + 1 in every record')
-    D(ok_tmax, 'no record beyond t_max')
+    D(ok_one, 'at most one event per history', key='event')
+    D(ok_last, 'no record after an event (an event is the last record)', key='event')
+    D(ok_tin, 'time_in = 0, 1, 2, ... consecutive within every history', key='time')
+    D(ok_tout, 'time_out = time_in + 1 in every record', key='time')
+    D(ok_tmax, 'no record beyond t_max', key='time')
     D(ok_sorted and ok_id, 'records sorted by (uid, time_in); one sampled id per history')
     info['stops_early'] = stops_early
     info['reaches_end'] = reaches_end
+    if not spec['cens']:
+        # without a censoring model a history can only end with an event or at t_max (no hook needed)
+        bad = [u for u, gdf in groups.items() if len(gdf) < tmax and gdf['Y'].iloc[-1] == 0]
+        D(not bad, 'no censoring model: every history ends with an event or at t_max (uids %s)' % bad[:5])
     # ---- stopping against the captured draws: no record after an event or after censoring, nobody lost
     ok_stop = ok_lost = ok_cz = ok_nat = ok_rule = ok_cov = True
-    for u, gdf in groups.items():
+    for u, gdf in (groups.items() if hooked else ()):
         steps = per.get(u, {})
         m = len(gdf)
         for s in range(m):
             calls = steps.get(s)
             if calls is None or len(calls) != len(kinds):
                 ok_lost = False
+                note('lost', 'uid %d has a record for interval %d but no model predicted for it' % (u, s))
                 continue
             yd = calls[pos['out']][1]
             ud = calls[pos['cens']][1] if 'cens' in pos else 1.0
             stopped = (yd == 1 and ud == 1) or ud == 0
             if s < m - 1 and stopped:
                 ok_stop = False                      # a record follows an event or censoring
+                note('stop', 'uid %d interval %d: drawn outcome %g, drawn uncensored %g, but %d more record(s) follow'
+                     % (u, s, yd, ud, m - 1 - s))
             if s == m - 1 and not stopped and s != tmax - 1:
                 ok_lost = False                      # history ends for no reason
+                note('lost', 'uid %d ends after interval %d of %d without event or censoring' % (u, s, tmax))
             rec = gdf.iloc[s]
             if rec['Y'] != (1 if (yd == 1 and ud == 1) else 0):
                 ok_cz = False                        # censoring zeroes the outcome; otherwise the drawn outcome
+                note('cz', 'uid %d interval %d: Y=%g, drawn outcome %g, drawn uncensored %g' % (u, s, rec['Y'], yd, ud))
             if spec['plan'] == 'natural' and rec['A'] != calls[pos['exp']][1]:
                 ok_nat = False
+                note('nat', 'uid %d interval %d: A=%g drawn %g' % (u, s, rec['A'], calls[pos['exp']][1]))
             for j, c in enumerate(exec_order(spec)):
                 if rec[c['col']] != calls[j][1]:
                     ok_cov = False
+                    note('cov', 'uid %d interval %d: %s=%g drawn %g' % (u, s, c['col'], rec[c['col']], calls[j][1]))
             if spec['plan'] == 'custom':
                 frame, _, cols = calls[pos['out']]
                 row = dict(zip(cols, frame.tolist()))
                 row['A'] = calls[pos['exp']][1]      # the rule is evaluated on the drawn exposure
                 if rec['A'] != (1 if c_val(spec['rule'], row) else 0):
                     ok_rule = False
-    D(ok_stop, 'no record after a drawn event or after drawn censoring')
-    D(ok_lost, 'every history ends with an event, with censoring or at t_max (nobody is lost)')
-    D(ok_cz, 'outcome of a record = drawn outcome, zeroed when censored in that interval')
-    D(ok_cov, 'covariate columns of a record = the values drawn for that individual in that interval')
+                    note('rule', 'uid %d interval %d: A=%g but rule %s on row %s is %s' % (
+                        u, s, rec['A'], c_py(spec['rule']), {k: row[k] for k in sorted(c_reads(spec['rule']))},
+                        c_val(spec['rule'], row)))
+    if hooked:
+        D(ok_stop, 'no record after a drawn event or after drawn censoring', key='stop')
+        D(ok_lost, 'every history ends with an event, with censoring or at t_max (nobody is lost)', key='lost')
+        D(ok_cz, 'outcome of a record = drawn outcome, zeroed when censored in that interval', key='cz')
+        D(ok_cov, 'covariate columns of a record = the values drawn for that individual in that interval', key='cov')
     if spec['plan'] == 'all':
         D(bool((full['A'] == 1).all()) and bool((low['A'] == 1).all()), "plan 'all': exposure = 1 in every record")
     elif spec['plan'] == 'none':
         D(bool((full['A'] == 0).all()) and bool((low['A'] == 0).all()), "plan 'none': exposure = 0 in every record")
     elif spec['plan'] == 'natural':
-        D(ok_nat, "plan 'natural': exposure = the drawn value")
+        if hooked:
+            D(ok_nat, "plan 'natural': exposure = the drawn value", key='nat')
     else:
-        D(ok_rule, 'custom plan: exposure = rule evaluated on the row (simulated covariates, lags, drawn exposure)')
+        if hooked:
+            D(ok_rule, 'custom plan: exposure = rule evaluated on the row (simulated covariates, lags, drawn '
+                       'exposure)', key='rule')
         rd = c_reads(spec['rule'])
         lagt = {v for k, v in (spec['lags'] or [])}
         outt = {d for d, e in (spec.get('outrec') or [])}
@@ -527,7 +563,7 @@ def run_case(spec, drv):
             D(want is None or full['A'].tolist() == want,
               'custom plan: rule holds row by row on the output record itself')
     # ---- lags: at every prediction of step i the lag column holds the source's value of step i-1
-    if spec['lags']:
+    if spec['lags'] and hooked:
         lags = [(k, v) for k, v in spec['lags']]
         base = df.sort_values(['id', 't_out']).groupby('id').head(1).set_index('id')
         ok_lag0 = ok_lag = True
@@ -552,21 +588,34 @@ def run_case(spec, drv):
                         if s == 0:
                             if row[v] != base.loc[bid, v]:
                                 ok_lag0 = False
+                                note('lag0', 'uid %d (id %s) call %s: %s=%g, baseline %g' % (u, bid, kinds[p], v, row[v],
+                                                                                         base.loc[bid, v]))
                         else:
                             prev = steps[s - 1][pos['out']]
                             prow = dict(zip(prev[2], prev[0].tolist()))
                             # value of k in interval s-1: what the outcome model of that interval saw (the output
                             # record's own value for the exposure / covariates)
                             if row[v] != prow[k]:
+                                msg = 'uid %d interval %d call %s: %s=%g but %s was %g in interval %d' % (
+                                    u, s, kinds[p], v, row[v], k, prow[k], s - 1)
                                 if (k, v) in chain_sources:
                                     bad_chain = True
+                                    note('chain', msg)
                                 else:
                                     ok_lag = False
-        D(ok_lag0, 'lag columns hold the baseline values in the first interval')
-        D(ok_lag, 'every lag column holds the previous interval\'s value whenever a model predicts')
+                                    note('lag', msg)
+        D(ok_lag0, 'lag columns hold the baseline values in the first interval', key='lag0')
+        D(ok_lag, 'every lag column holds the previous interval\'s value whenever a model predicts', key='lag')
         if chain_sources:
             D(not bad_chain, 'chained lags: the second-order lag holds the first-order lag\'s previous value',
-              FINDING_SIG)
+              FINDING_SIG, key='chain')
+    # ---- hook-free lag check on the output alone: under the rule g['A_l1'] == 1 with A lagged into A_l1, the
+    #      exposure of interval i must repeat the exposure of interval i-1
+    if spec['plan'] == 'custom' and spec['rule'] == FIXED_RULES[0] and spec['lags'] and \
+            ['A', 'A_l1'] in [list(x) for x in spec['lags']] and [list(x) for x in spec['lags']].index(['A', 'A_l1']) \
+            >= max([i for i, x in enumerate(spec['lags']) if x[1] == 'A_l1']):
+        bad = [u for u, gdf in groups.items() if gdf['A'].nunique() > 1]
+        D(not bad, "rule g['A_l1'] == 1 with lag A -> A_l1: exposure constant within every history (uids %s)" % bad[:5])
     # ---- low memory = last record of every history of the full output, same seed
     last = full.groupby('uid_g_zepid', sort=True).tail(1).reset_index(drop=True)
     same = list(last.columns) == list(low.columns) and len(last) == len(low) and \
@@ -574,7 +623,7 @@ def run_case(spec, drv):
     D(same, 'low_memory output = last record of every history of the full output (same seed)')
 
     # ============================== K: model vs implementation =====================================================
-    if drv is not None:
+    if drv is not None and hooked:
         base = df.sort_values(['id', 't_out']).groupby('id').head(1).set_index('id')
         lastid = full.groupby('uid_g_zepid', sort=True)['id'].first()
         try:
@@ -719,7 +768,7 @@ def feed(chk, spec, out):
 
 
 def run(chk, drv, rng, tier):
-    reps = 1 if tier == 'quick' else 6
+    reps = 2 if tier == 'quick' else 12
     plans = ['all', 'none', 'natural', 'custom']
     cells = list(itertools.product(plans, list(COVSETS), [False, True], list(LAGSETS)))
     chk.extra['config_cells'] = len(cells)
@@ -730,7 +779,7 @@ def run(chk, drv, rng, tier):
             i += 1
             feed(chk, spec, run_case(spec, drv))
     # extra custom rules (the rule grammar is the largest part of the input space)
-    for j in range(24 if tier == 'quick' else 200):
+    for j in range(24 if tier == 'quick' else 300):
         covs = list(COVSETS)[j % 4]
         spec = random_spec(rng, 'custom', covs, bool(j % 2), ['none', 'first', 'chain'][j % 3], tier, j)
         feed(chk, spec, run_case(spec, drv))
@@ -742,6 +791,20 @@ def run(chk, drv, rng, tier):
         spec['sample'] = max(spec['sample'], 20)
         spec['tmax'] = 5
         feed(chk, spec, run_case(spec, drv))
+    # information only (outside the documented domain t_max : int): a non-integer t_max never marks the last
+    # iteration, so low_memory drops everyone who survives
+    spec = random_spec(rng, 'all', 'none', False, 'none', tier, 0)
+    spec.update(sample=50, tmax=2, pin=None)
+    try:
+        with_int = run_fit(fitted(spec)[0], spec, True, NAMES)[0]
+        spec['tmax'] = 2.5
+        with_frac = run_fit(fitted(spec)[0], spec, True, NAMES)[0]
+        chk.extra['info_noninteger_tmax'] = ('t_max=2.5, low_memory=True returns %s of 50 individuals (t_max=2: %s); '
+                                             'documented type is int, not judged' % (
+                                                 with_frac['uid_g_zepid'].nunique() if hasattr(with_frac, 'columns')
+                                                 else repr(with_frac), with_int['uid_g_zepid'].nunique()))
+    except Exception as e:  # noqa: BLE001
+        chk.extra['info_noninteger_tmax'] = 'not run: %r' % (e,)
     # t_max = 0: nothing simulated, pd.concat raises; the model rejects
     spec = random_spec(rng, 'all', 'L', False, 'none', tier, 0)
     spec['tmax'] = 0
